@@ -142,6 +142,24 @@ fn run_f64(f: &str, ops: &[Vec<Option<f64>>], sc: &[f64]) -> Result<Vec<Vec<Opti
     }
 }
 
+fn disp<D: Parts + std::fmt::Display>(ops: &[Vec<Option<f64>>]) -> Result<String, String> { Ok(format!("{}", D::from_parts(&ops[0]))) }
+
+/// the Display rendering of a value (C18)
+fn display_of(ty: &str, ops: &[Vec<Option<f64>>]) -> Result<String, String> {
+    match ty {
+        "Dual" => disp::<Dual64>(ops),
+        "Dual2" => disp::<Dual2_64>(ops),
+        "Dual3" => disp::<Dual3_64>(ops),
+        "HyperDual" => disp::<HyperDual64>(ops),
+        "HyperHyperDual" => disp::<HyperHyperDual64>(ops),
+        "Dual__Dual" => disp::<DD>(ops),
+        "DualVec" => disp::<DV>(ops),
+        "Dual2Vec" => disp::<D2V>(ops),
+        "HyperDualVec" => disp::<HDV>(ops),
+        _ => Err(format!("no Display for {ty}")),
+    }
+}
+
 fn dispatch(ty: &str, f: &str, ops: &[Vec<Option<f64>>], sc: &[f64]) -> Result<Vec<Vec<Option<f64>>>, String> {
     match ty {
         "F64" => run_f64(f, ops, sc),
@@ -176,6 +194,14 @@ fn main() {
         }
         let per = if nops == 0 { 0 } else { vals.len() / nops };
         let ops: Vec<Vec<Option<f64>>> = (0..nops).map(|k| vals[k * per..(k + 1) * per].to_vec()).collect();
+        if f == "display" {
+            match std::panic::catch_unwind(|| display_of(&ty, &ops)) {
+                Ok(Ok(t)) => println!("STR {}", t.replace('\\', "\\\\").replace('\n', "\\n")),
+                Ok(Err(e)) => println!("ERR {e}"),
+                Err(_) => println!("PANIC"),
+            }
+            continue;
+        }
         let r = std::panic::catch_unwind(|| dispatch(&ty, &f, &ops, &sc));
         match r {
             Ok(Ok(rs)) => {
